@@ -345,3 +345,23 @@ Example ex_cross_device :
     ([109; 50], []); ([109; 50; 47; 102], [109; 49; 47; 102]); ([109; 50; 47; 103], [109; 49; 47; 102]) ]
   /\ spec_walk_b [] (entries_root t_xdev) (walk t_xdev) = false.
 Proof. vm_compute. split; reflexivity. Qed.
+
+(* ---- source equivalences (tools/go2coq; gen/SrcFns.v is regenerated from /repo on every run): the
+        Gallina definitions translated from stat_unix.go's major, minor and skipXattr equal the Linux
+        device-number decoding (Model/DevNum.v: the inverse of the kernel's new_encode_dev, theorem
+        decode_encode) and the xattr filter of the walk model ---- *)
+From FSGen Require SrcFns.
+From FS Require Model.DevNum Proofs.DevNumP Proofs.Src.MajorEq Proofs.Src.MinorEq Proofs.Src.SkipXattrEq.
+Theorem major_src_eq : forall d, SrcFns.major d = DevNum.dev_major d.
+Proof. exact MajorEq.major_src_eq. Qed.
+Theorem minor_src_eq : forall d, SrcFns.minor d = DevNum.dev_minor d.
+Proof. exact MinorEq.minor_src_eq. Qed.
+Theorem dev_decode_encode : forall major minor, (major < 4096)%N -> (minor < 1048576)%N ->
+  DevNum.dev_major (DevNum.encode_dev major minor) = major /\ DevNum.dev_minor (DevNum.encode_dev major minor) = minor.
+Proof. exact DevNumP.decode_encode. Qed.
+Theorem skipXattr_src_eq : forall k, SrcFns.skipXattr k = has_prefix xattr_apple_prefix k.
+Proof. exact SkipXattrEq.skipXattr_src_eq. Qed.
+Print Assumptions major_src_eq.
+Print Assumptions minor_src_eq.
+Print Assumptions dev_decode_encode.
+Print Assumptions skipXattr_src_eq.
